@@ -296,3 +296,33 @@ func (g *BadA1Helper) BindLocalStream(_ *interceptor.StreamInfo, w interceptor.R
 		return fwdHelperDrops(w, h, p, a)
 	})
 }
+
+// ---- A3: caller memory parked in a field and written elsewhere ----------------------------------------------------------
+
+type rtcpRecord struct{ pkts []rtcp.Packet }
+
+type BadA3Parked struct {
+	interceptor.NoOp
+	ch chan *rtcpRecord
+}
+
+func (g *BadA3Parked) BindRTCPWriter(w interceptor.RTCPWriter) interceptor.RTCPWriter {
+	return interceptor.RTCPWriterFunc(func(pkts []rtcp.Packet, a interceptor.Attributes) (int, error) {
+		select {
+		case g.ch <- &rtcpRecord{pkts: pkts}:
+		default:
+		}
+		return w.Write(pkts, a)
+	})
+}
+
+// compact runs in the consumer goroutine and filters the parked slice in place.
+func (g *BadA3Parked) compact(r *rtcpRecord) []rtcp.Packet {
+	out := r.pkts[:0]
+	for _, p := range r.pkts {
+		if p != nil {
+			out = append(out, p)
+		}
+	}
+	return out
+}
